@@ -1,6 +1,7 @@
 """C18 - introspection is truthful and can rebuild the schema (structural clauses)."""
 from __future__ import annotations
 
+from rules import generic_rules as G
 from rules import language_rules as L, sdl_rules as D
 from sa.loader import Repo
 from sa.report import Check
@@ -24,6 +25,11 @@ def run(check: Check, repo: Repo, tier: str) -> None:
     D.option_map(check, repo)
     D.introspect_matrix(check, repo)
     D.enum_tables(check, repo)
+    umods = [repo.mod(m) for m in ("utilities.introspection_from_schema", "utilities.get_introspection_query",
+                                   "utilities.build_client_schema", "utilities.print_schema", "utilities.value_to_literal",
+                                   "utilities.get_default_value_ast", "type.introspection")]
+    G.arg_name_match(check, repo, [f for m in umods for f in m.functions()])
+    check.floor("ARG-NAME-MATCH", 5, "resolved calls with >= 2 named positional arguments")
     from rules import coercion_rules as K
     K.regex_fullmatch(check, repo, ['type.scalars', 'utilities.value_to_literal', 'utilities.ast_from_value'])
     L.optional_truthiness(check, repo, ["type.introspection", "utilities.build_client_schema", "utilities.print_schema"],
